@@ -14,14 +14,13 @@ fn main() {
         "pca:inverse-transform:whitening-not-undone",
         "pca:solver-breakdown:wrong-components",
         "pca:solver-breakdown:nan-panic",
-        "pca:solver-breakdown:value-vector-mismatch",
-        "pca:solver-breakdown:non-leading-eigenpair",
+        "pca:solver-breakdown:eigenpairs-misassigned",
     ];
     std::panic::set_hook(Box::new(|_| {}));
     let mut found: std::collections::BTreeMap<&str, (usize, Case, String)> = Default::default();
-    let mut rng = SplitMix(20261002);
+    let mut rng = SplitMix(std::env::args().nth(3).and_then(|s| s.parse().ok()).unwrap_or(20261002));
     let only_nl = std::env::args().nth(2).is_some();
-    for iter in 0..(if only_nl { 3000000usize } else { 400000 }) {
+    for iter in 0..(if only_nl { 700000usize } else { 400000 }) {
         let p = 1 + rng.below(if iter < 200000 { 4 } else { 8 });
         let n = p + 1 + rng.below(if iter < 200000 { 5 } else { 40 });
         let n = n.max(5);
